@@ -246,8 +246,29 @@ func (e *exprT) evalPacked(row env) (string, error) {
 // generation
 
 type exprGen struct {
-	t    *rapid.T
-	cols []colT
+	t       *rapid.T
+	cols    []colT
+	present map[string][]lit // values stored in the tables, by column name
+	lead    []string         // leading columns of composite indexes
+}
+
+// stored draws n different values that are present in the data for col.
+func (g *exprGen) stored(col string, n int) []lit {
+	p := g.present[col]
+	if len(p) == 0 {
+		return nil
+	}
+	var names []string
+	for i := range p {
+		names = append(names, fmt.Sprint(i))
+	}
+	var r []lit
+	for _, s := range subsetOf(g.t, names, min(n, len(p)), min(n, len(p)), "stored") {
+		var i int
+		fmt.Sscan(s, &i)
+		r = append(r, p[i])
+	}
+	return r
 }
 
 func (g *exprGen) pick(label string, pred func(colT) bool) (colT, bool) {
@@ -289,6 +310,9 @@ func (g *exprGen) constFor(c colT, ordering bool) *exprT {
 		lits = append(lits, strLits...)
 		lits = append(lits, dateLits...)
 	} else {
+		if !ordering && len(g.present[c.name]) > 0 && chance(g.t, "storedconst", 60) {
+			return constExpr(g.stored(c.name, 1)[0])
+		}
 		lits = litsFor(c.typ)
 		if rng(g.t, "othertype", 0, 7) == 0 {
 			lits = mixLits()
@@ -308,7 +332,10 @@ func (g *exprGen) constFor(c colT, ordering bool) *exprT {
 
 // boolean draws an expression that evaluates to true/false on every row.
 func (g *exprGen) boolean(depth int) *exprT {
-	k := rng(g.t, "bkind", 0, 11)
+	k := rng(g.t, "bkind", 0, 14)
+	if k >= 12 {
+		k = 5 // in-lists: 4 of 15
+	}
 	if depth <= 0 && k >= 8 {
 		k = k % 6
 	}
@@ -342,15 +369,35 @@ func (g *exprGen) boolean(depth int) *exprT {
 			return bin("is", colExpr(c1), g.constFor(c1, false), tBool)
 		}
 		return bin(op, colExpr(c1), colExpr(c2), tBool)
-	case k == 5: // in
+	case k == 5: // in (or an `or` of equalities)
 		c, ok := g.pick("icol", notObj)
 		if !ok {
 			return constExpr(boolLits[1])
 		}
-		n := rng(g.t, "nin", 1, 3)
+		// prefer a leading column of a composite index
+		if chance(g.t, "inlead", 50) {
+			if lc, ok := g.pick("ileadcol", func(x colT) bool { return x.typ != tObj && contains(g.lead, x.name) }); ok {
+				c = lc
+			}
+		}
 		args := []*exprT{colExpr(c)}
-		for i := 0; i < n; i++ {
-			args = append(args, g.constFor(c, false))
+		if st := g.stored(c.name, rng(g.t, "nstored", 2, 3)); len(st) >= 2 && chance(g.t, "instored", 75) {
+			// 2-3 values that are actually stored
+			for _, l := range st {
+				args = append(args, constExpr(l))
+			}
+		} else {
+			n := rng(g.t, "nin", 1, 3)
+			for i := 0; i < n; i++ {
+				args = append(args, g.constFor(c, false))
+			}
+		}
+		if len(args) > 2 && chance(g.t, "inasor", 25) {
+			e := &exprT{op: "or", typ: tBool}
+			for _, a := range args[1:] {
+				e.args = append(e.args, bin("is", colExpr(c), a, tBool))
+			}
+			return e
 		}
 		return &exprT{op: "in", args: args, typ: tBool}
 	case k == 6: // range
